@@ -56,7 +56,7 @@ class Concat(Expr):
     @functools.cached_property
     def _meta(self):
         # ignore DataFrame without columns to avoid dtype upcasting
-        return make_meta(
+        meta = make_meta(
             methods.concat(
                 [
                     meta_nonempty(df._meta)
@@ -70,6 +70,19 @@ class Concat(Expr):
                 **self._kwargs,
             )
         )
+        if self.axis == 0:
+            # An index level keeps its name only if all inputs agree on it. The
+            # stand-ins can disagree with the data here: pandas keeps the name
+            # of a leading RangeIndex, which is what an empty meta often has
+            names = [list(df._meta.index.names) for df in self._frames]
+            if all(len(n) == meta.index.nlevels for n in names):
+                common = [
+                    n if all(other[i] == n for other in names) else None
+                    for i, n in enumerate(names[0])
+                ]
+                if list(meta.index.names) != common:
+                    meta.index = meta.index.set_names(common)
+        return meta
 
     def _divisions(self):
         dfs = self._frames
